@@ -21,6 +21,21 @@ Proof.
   - constructor.
 Qed.
 
+(** a parameter change: by the authority, valid parameters, nothing else changes *)
+Lemma update_params_Done s who cf tr s' rw : update_params s who cf tr = Done s' rw ->
+  who = AUTH /\ 0 <= cf < 2 ^ 255 /\ 0 < tr < P18 /\ rw = []
+  /\ s' = mkSt (height s) (pools s) (queue s) (seq s) (bank s) cf tr.
+Proof.
+  unfold update_params. destruct (Z.eqb_spec who AUTH) as [->|]; cbn [negb]; [|discriminate].
+  destruct (Z.ltb_spec cf 0); cbn [orb]; [discriminate|].
+  destruct (Z.leb_spec (2 ^ 255) cf); cbn [orb]; [discriminate|].
+  destruct (Z.leb_spec tr 0); cbn [orb]; [discriminate|].
+  destruct (Z.leb_spec P18 tr); [discriminate|]. intros HD. inversion HD; subst. repeat split; lia.
+Qed.
+
+Lemma inv_params s cf tr : inv s -> inv (mkSt (height s) (pools s) (queue s) (seq s) (bank s) cf tr).
+Proof. intros I. destruct I. constructor; simpl; assumption. Qed.
+
 Lemma step_inv s st : inv s -> valid_step st -> inv (step_state s st).
 Proof.
   intros I Hv. destruct st as [m|]; [|exact (next_block_inv s I)].
@@ -32,6 +47,7 @@ Proof.
   - exact (harvest_inv _ _ _ _ _ I Hv E).
   - exact (adjust_inv _ _ _ _ _ _ _ I Hv E).
   - exact (destroy_inv _ _ _ _ _ I E).
+  - destruct (update_params_Done _ _ _ _ _ _ E) as (_ & _ & _ & _ & ->). exact (inv_params s cf tr I).
 Qed.
 
 Lemma run_inv steps : forall s, inv s -> Forall valid_step steps -> inv (run s steps).
